@@ -164,6 +164,21 @@ def parseInt (s : String) : Option Int :=
 def parseInts (s : String) : List Int :=
   if s == "-" || s == "" || s == "nil" then [] else (s.splitOn ",").filterMap parseInt
 
+/-- order-preserving integer key of a finite float64 bit pattern: sign-magnitude to two's-complement
+    style (−0 and +0 both map to 0, so they tie exactly as `==` says; distinct bit patterns of non-zero
+    floats map to distinct keys in numeric order) -/
+def floatKey (bits : String) : Option Int :=
+  (hexNat bits).map fun b =>
+    let mag : Int := ((b % 2 ^ 63 : Nat) : Int)
+    if b ≥ 2 ^ 63 then -mag else mag
+
+/-- sample values of a case line: small integers (`x1=3,-1`) or float bit patterns (`enc=bits`) -/
+def parseSample (c : Line) (k : String) : List Int :=
+  let s := c.getD k "-"
+  if c.getD "enc" == "bits" then
+    if s == "-" || s == "" then [] else (s.splitOn ",").filterMap floatKey
+  else parseInts s
+
 def parseAlt (s : String) : UStat.Alt :=
   if s == "less" then .less else if s == "greater" then .greater else .differs
 
@@ -211,8 +226,8 @@ def showErr : UStat.Err → String
   | .samplesEqual => "!equal"
 
 def handleMW (c info : Line) : IO Unit := do
-  let x1 := parseInts (c.getD "x1" "-")
-  let x2 := parseInts (c.getD "x2" "-")
+  let x1 := parseSample c "x1"
+  let x2 := parseSample c "x2"
   let alt := parseAlt (c.getD "alt")
   let lims := parseInts (c.getD "lim" "50,25")
   let lim := (lims.getD 0 50).toNat
